@@ -654,13 +654,32 @@ class AtLeast(puan.Proposition):
             # than full len of propositions, then this
             # is a mixed of both
             if len(compounds) < len(self.propositions):
-                compounds.append(
-                    AtLeast(
-                        value=self.value,
-                        propositions=atoms,
-                        sign=self.sign,
+                if self.value == 1 and all(map(lambda x: x.bounds.lower >= 0, atoms)):
+                    # "at least one" over non negative atoms and compounds:
+                    # the atoms can be grouped into one "any of the atoms" compound
+                    compounds.append(
+                        AtLeast(
+                            value=self.value,
+                            propositions=atoms,
+                            sign=self.sign,
+                        )
                     )
-                )
+                elif all(map(lambda x: x.bounds.lower >= 0 and x.bounds.upper <= 1, atoms)):
+                    # boolean atoms are negated one by one
+                    compounds.extend(
+                        map(
+                            lambda atom: AtLeast(
+                                value=1,
+                                propositions=[atom],
+                                sign=self.sign,
+                            ),
+                            atoms,
+                        )
+                    )
+                else:
+                    # integer atoms cannot be negated one by one,
+                    # keep the negation on this level
+                    return negated
 
             negated.propositions = list(
                 map(
